@@ -127,7 +127,7 @@ def run_case(cs, ctx):
                 continue
             ctx.cnt('debug_blocks_judged')
             try:
-                rows = op.parse_debug(dbg)['rows']
+                rows = op.parse_debug(dbg, nrows=spec['ns'])['rows']
                 exp_rows = [[(a, b, c, d, e) for (a, b, c, d, e, _, _, _) in row] for row in exp['pairs']]
                 if rows != exp_rows:
                     ctx.finding(en.F('C10', 'debug_block', 'Model instance information shows %s, the file denotes %s' % (rows, exp_rows)), case)
